@@ -1263,7 +1263,19 @@ impl Unit {
 					int,
 				)?;
 			}
-			result_hashmap.insert(base_unit.clone(), exponent.clone());
+			// several temperature scales may map to kelvin: add the exponents
+			// instead of replacing the entry, and drop exponents that cancel
+			let total: Complex = match result_hashmap.remove(&base_unit) {
+				Some(existing) => {
+					Exact::<Complex>::new(existing, true)
+						.add(Exact::new(exponent.clone(), true), int)?
+						.value
+				}
+				None => exponent.clone(),
+			};
+			if total.compare(&0.into(), int)? != Some(Ordering::Equal) {
+				result_hashmap.insert(base_unit.clone(), total);
+			}
 		}
 		Ok((result_hashmap, scale_adjustment, Exact::new(0.into(), true)))
 	}
